@@ -16,6 +16,7 @@ pub fn dispatch(op: &str, req: &Value) -> Value {
         "branch_rules" => branch_rules(req),
         "template" => template(req),
         "parts" => parts(req),
+        "schema_check" => schema_check(req),
         "context" => context(req),
         _ => json!({"error": format!("unknown op {op}")}),
     }
@@ -305,4 +306,18 @@ fn context(req: &Value) -> Value {
         "sv_base": string_to_cps(&c.semver_obj.base_part), "sv_pre": ostr(c.semver_obj.pre_release_part), "sv_build": ostr(c.semver_obj.build_part), "docker": string_to_cps(&c.semver_obj.docker),
         "pp_base": string_to_cps(&c.pep440_obj.base_part), "pp_pre": ostr(c.pep440_obj.pre_release_part), "pp_build": ostr(c.pep440_obj.build_part),
         "major": c.major, "minor": c.minor, "patch": c.patch, "epoch": c.epoch, "post": c.post, "dev": c.dev, "distance": c.distance})
+}
+
+fn schema_check(req: &Value) -> Value {
+    let sch = &req["schema"];
+    let (c, e, b) = (comps(&sch[0]), comps(&sch[1]), comps(&sch[2]));
+    let how = req["how"].as_str().unwrap_or("new");
+    let base = || ZervSchema::new(vec![Component::Var(Var::Major)], vec![Component::Var(Var::Epoch)], vec![Component::Var(Var::Distance)]).unwrap();
+    let r: Result<(), zerv::error::ZervError> = match how {
+        "set_core" => { let mut s = base(); s.set_core(c) }
+        "set_extra_core" => { let mut s = base(); s.set_extra_core(e) }
+        "set_build" => { let mut s = base(); s.set_build(b) }
+        _ => ZervSchema::new(c, e, b).map(|_| ()),
+    };
+    match r { Ok(()) => json!({"ok": true}), Err(e) => json!({"ok": false, "err": e.to_string()}) }
 }
